@@ -333,6 +333,39 @@ def special_islands(ctx, rep):
                         break
         except Exception as exc:
             rep.violate(f"fitness-predictor island raised {type(exc).__name__}: {exc}", "C05:raised", case)
+    # (a') a serial archipelago of predictor islands: every island evaluates with its OWN current predictor subset, so an immigrant's
+    # stored fitness (computed on the island it left) is stale on arrival unless the migration clears it
+    for t in range(ctx.n(4, 20)):
+        seed = rng.randrange(2 ** 31)
+        x, y, cg, gen = parts(seed, 40)
+        fit = ExplicitRegression(training_data=ExplicitTrainingData(x.copy(), y.copy()))
+        ea = MuPlusLambda(Evaluation(fit), Tournament(2), AGraphCrossover(), AGraphMutation(cg), 0.4, 0.4, 8)
+        case = {"kind": "serial archipelago of fitness-predictor islands", "seed": seed}
+        rep.case(("fpi-arch", seed), True)
+        rep.count("special", "serial archipelago of fitness-predictor islands")
+        try:
+            with warnings.catch_warnings():
+                warnings.simplefilter("ignore")
+                tmpl = FitnessPredictorIsland(ea, gen, 8, predictor_population_size=4, predictor_update_frequency=2,
+                                              predictor_size_ratio=0.2, predictor_computation_ratio=0.5, trainer_population_size=3,
+                                              trainer_update_frequency=3)
+                arch = SerialArchipelago(tmpl, num_islands=rng.choice([2, 3, 4]))
+                for g in range(ctx.n(10, 18)):
+                    arch.evolve(1)
+                    bad = None
+                    for k, isl in enumerate(arch.islands):
+                        cur = ExplicitRegression(training_data=isl._fitness_function.training_data)
+                        n_bad = sum(1 for ind in isl.population if ind.fit_set and not close(float(ind._fitness), float(cur(ind.copy()))))
+                        if n_bad:
+                            bad = (k, n_bad)
+                            break
+                    if bad:
+                        rep.violate(f"archipelago of predictor islands, generation {g + 1} (after the migration): {bad[1]} individuals of island {bad[0]} are "
+                                    "marked evaluated but their stored fitness is not the value of that island's current fitness function", "C05:stale-fitness",
+                                    {**case, "generation": g + 1})
+                        break
+        except Exception as exc:
+            rep.violate(f"archipelago of predictor islands raised {type(exc).__name__}: {exc}", "C05:raised", case)
     for t in range(ctx.n(3, 20)):
         seed = rng.randrange(2 ** 31)
         x, y, cg, gen = parts(seed, 12)
